@@ -16,8 +16,17 @@
                      client has seen it (settled environment)
       C              rc.Close()
       att ∈ ok | cfg (configFunc error) | bad (invalid config) | new (ConnFactory.New error)
-            | auth | tls | down (handshake fails after the socket was obtained)
-    output: `seq` then, per op,  RESULT/cfgCalls/connectedFunc-args/open-sockets/sockets-so-far
+            | tls | down (tr.DialEarly fails: handshake error / timeout, no quic.Conn)
+            | rt (the server drops the connection while answering the auth request: RoundTrip error)
+            | auth (the server answers with a status other than 233)
+    output: `seq` then, per op,
+      RESULT/cfgCalls/connectedFunc-args/open-sockets/sockets-so-far/RESOURCES
+    RESOURCES = for every factory socket `id:pNtNcX` — how often its packet conn (p) and transport (t)
+    were closed, and the QUIC conn: `-` never obtained (as seen by the server: never accepted), `*` the
+    server closed it first (kill, rt), `1` closed by the client, `0` still open.
+
+    cfgeval KIND a1 a2 …   app/cmd/client.go: the resolver answers a1, a2, … to successive evaluations of
+                     the configuration function; a fresh evaluation returns the current answer each time
 
     conc …           concurrent history: checked by the harness's model-free oracle only;
                      the driver answers the constant the harness prints.
@@ -32,9 +41,10 @@ def parseAtt : String → Option Att
   | "cfg" => some .cfgErr
   | "bad" => some .badCfg
   | "new" => some .newErr
-  | "auth" => some .connErr
-  | "tls" => some .connErr
-  | "down" => some .connErr
+  | "auth" => some .authErr
+  | "rt" => some .rtErr
+  | "tls" => some .dialErr
+  | "down" => some .dialErr
   | _ => none
 
 def showRet : Ret → String
@@ -51,63 +61,90 @@ def lastRet (s : St) : String :=
   | .startRet (some e) :: _ => showRet e
   | _ => "?"
 
-def summary (s : St) : String :=
-  s!"{cfgCount s.log}/{showNats (connArgs s.log).reverse}/{showNats (openList s)}/{s.nextId}"
+def showCount : Option Nat → String
+  | none => "-"
+  | some n => toString n
+
+/-- `sc` = sockets whose connection the SERVER closed first (what the client does to the QUIC conn
+    afterwards is not observable from outside) -/
+def showRes (s : St) (sc : List Nat) (c : Nat) : String :=
+  match s.res c with
+  | none => s!"{c}:?"
+  | some r =>
+    let cc := match r.conn with
+      | none => "-"
+      | some n => if sc.contains c || s.dead c then "*" else if n == 0 then "0" else "1"
+    s!"{c}:p{showCount r.pkt}t{showCount r.tr}c{cc}" ++ (if r.nilDeref then "!" else "")
+
+def summary (s : St) (sc : List Nat) : String :=
+  let rs := (List.range s.nextId).map (showRes s sc)
+  let rstr := if rs.isEmpty then "-" else ",".intercalate rs
+  s!"{cfgCount s.log}/{showNats (connArgs s.log).reverse}/{showNats (openList s)}/{s.nextId}/{rstr}"
 
 /-- one TCP()/UDP() call of the single goroutine 0 in the settled environment -/
-def call (cfg : Cfg) (s : St) (sat : Option Nat) (k : Kind) (a : Att) (fill : Bool) : St × Option Nat × String :=
-  if !s.started then (s, sat, "nostart")
+structure Aux where
+  sat : Option Nat := none      -- the client whose stream limit the harness has saturated
+  sc  : List Nat := []          -- sockets whose connection the server closed first
+
+def call (cfg : Cfg) (s : St) (x : Aux) (k : Kind) (a : Att) (fill : Bool) : St × Aux × String :=
+  if !s.started then (s, x, "nostart")
   else
     let s1 := step cfg s (.callBegin 0 a)
+    -- an `rt` attempt that was really made: the server dropped that socket's connection
+    let x := if a == .rtErr && s1.nextId == s.nextId + 1 then { x with sc := s.nextId :: x.sc } else x
     match s1.pc 0 with
-    | .idle => (s1, sat, lastRet s1)
+    | .idle => (s1, x, lastRet s1)
     | .using c =>
-      let r := settled s1 sat c k
-      let (r, sat) := if fill && r == .ok then (FRes.recoverable, some c) else (r, sat)
+      let r := settled s1 x.sat c k
+      let (r, x) := if fill && r == .ok then (FRes.recoverable, { x with sat := some c }) else (r, x)
       let s2 := step cfg s1 (.callEnd 0 r)
-      (s2, sat, lastRet s2)
+      (s2, x, lastRet s2)
 
-def doOp (cfg : Cfg) (s : St) (sat : Option Nat) (op : String) : Option (St × Option Nat × String) :=
+def doOp (cfg : Cfg) (s : St) (x : Aux) (op : String) : Option (St × Aux × String) :=
   match op.splitOn ":" with
   | ["L"] =>
-    if s.started then some (s, sat, "dup")
-    else let s' := step cfg s (.start true .ok); some (s', sat, lastRet s')
+    if s.started then some (s, x, "dup")
+    else let s' := step cfg s (.start true .ok); some (s', x, lastRet s')
   | ["E", a] =>
     match parseAtt a with
     | none => none
     | some a =>
-      if s.started then some (s, sat, "dup")
-      else let s' := step cfg s (.start false a); some (s', sat, lastRet s')
-  | ["T", a] => (parseAtt a).map (fun a => call cfg s sat .tcp a false)
-  | ["R", a] => (parseAtt a).map (fun a => call cfg s sat .tcpRefused a false)
-  | ["U", a] => (parseAtt a).map (fun a => call cfg s sat .udp a false)
-  | ["F", a] => (parseAtt a).map (fun a => call cfg s sat .tcp a true)
+      if s.started then some (s, x, "dup")
+      else
+        let s' := step cfg s (.start false a)
+        let x := if a == .rtErr && s'.nextId == s.nextId + 1 then { x with sc := s.nextId :: x.sc } else x
+        some (s', x, lastRet s')
+  | ["T", a] => (parseAtt a).map (fun a => call cfg s x .tcp a false)
+  | ["R", a] => (parseAtt a).map (fun a => call cfg s x .tcpRefused a false)
+  | ["U", a] => (parseAtt a).map (fun a => call cfg s x .udp a false)
+  | ["F", a] => (parseAtt a).map (fun a => call cfg s x .tcp a true)
   | ["K"] =>
-    if !s.started then some (s, sat, "nostart")
+    if !s.started then some (s, x, "nostart")
     else match s.client with
       | some c =>
-        if s.sock c == some true && !s.dead c then some (step cfg s (.kill c), sat, "kill")
-        else some (s, sat, "nokill")
-      | none => some (s, sat, "nokill")
+        if s.sock c == some true && !s.dead c then some (step cfg s (.kill c), x, "kill")
+        else some (s, x, "nokill")
+      | none => some (s, x, "nokill")
   | ["C"] =>
-    if !s.started then some (s, sat, "nostart")
-    else some (step cfg s .close, sat, "close")
+    if !s.started then some (s, x, "nostart")
+    else some (step cfg s .close, x, "close")
   | _ => none
 
 def runSeq (cfg : Cfg) (ops : List String) : String :=
-  let rec go (s : St) (sat : Option Nat) (acc : List String) : List String → String
+  let rec go (s : St) (x : Aux) (acc : List String) : List String → String
     | [] => " ".intercalate ("seq" :: acc.reverse)
     | op :: rest =>
-      match doOp cfg s sat op with
+      match doOp cfg s x op with
       | none => "bad-op"
-      | some (s', sat', r) => go s' sat' (s!"{r}/{summary s'}" :: acc) rest
-  go init none [] ops
+      | some (s', x', r) => go s' x' (s!"{r}/{summary s' x'.sc}" :: acc) rest
+  go init {} [] ops
 
 def step (line : String) : String :=
   match fields line with
   | "seq" :: ops => runSeq fixed ops
   | "pseq" :: ops => runSeq pinned ops
   | "conc" :: _ => "conc checked"
+  | "cfgeval" :: _kind :: answers => " ".intercalate ("cfgeval" :: configEvals answers)
   | _ => "bad-op"
 
 end Hy.Drv.Reconnect
